@@ -54,10 +54,15 @@ def tasks(tier):
                 out.append(dict(transport=tr, mode=mode, subset=list(sub), tier=tier))
             # small maxread: a chunk is returned in several reads (PopenSpawn carries the rest over in its own buffer)
             out.append(dict(transport=tr, mode=mode, subset=['logfile', 'logfile_read', 'logfile_send'], tier=tier, maxread=3))
+    for mode in ('bytes', 'utf-8'):
+        out.append(dict(transport='pty-select', mode=mode, subset=['logfile', 'logfile_read', 'logfile_send'], tier=tier, aio=True))
     return out
 
 
-def menu(tr):
+def menu(tr, aio=False):
+    if aio:
+        # awaited reads on the real (controlled) event loop; a poll (timeout 0) makes data arrive while its timeout fires
+        return ['aexpect_ok', 'aexpect_no', 'aexpect_poll', 'expect_ok', 'send', 'sendcontrol']
     ops = ['expect_ok', 'expect_no', 'rnb', 'send', 'sendline']
     if tr.startswith('pty'):
         ops += ['sendcontrol', 'sendeof', 'sendintr']
@@ -65,11 +70,19 @@ def menu(tr):
 
 
 def run_seq(task, seq):
+    loop = None
+    if task.get('aio'):
+        import asyncio
+        from mc import aio
+        aio.install()
     env = E.Env(Chooser(()))
     link = None
     viol = None
     obs = {}
     try:
+        if task.get('aio'):
+            loop = aio.new_loop()
+            asyncio.set_event_loop(loop)
         enc = None if task['mode'] == 'bytes' else task['mode']
         link = TR.Link(env, task['transport'], timeout=0.1, maxread=task.get('maxread', 2000), encoding=enc)
         sp = link.sp
@@ -89,7 +102,7 @@ def run_seq(task, seq):
             cc = termios.tcgetattr(link.wfd)[6]
             veof, vintr = cc[termios.VEOF], cc[termios.VINTR]
         for op in seq:
-            if op in ('expect_ok', 'expect_no', 'rnb'):
+            if op in ('expect_ok', 'expect_no', 'rnb', 'aexpect_ok', 'aexpect_no', 'aexpect_poll'):
                 # a unique token per chunk: the pattern of expect_ok cannot already be pending,
                 # so every read operation consumes exactly the chunk delivered for it
                 k = ci % len(CHUNKS)
@@ -101,7 +114,15 @@ def run_seq(task, seq):
                 want_read += text
                 want_all += text
                 try:
-                    if op == 'expect_ok':
+                    if op == 'aexpect_ok':
+                        loop.run_until_complete(sp.expect([S(tok), TIMEOUT], async_=True))
+                    elif op == 'aexpect_no':
+                        loop.run_until_complete(sp.expect([S('ZZ'), TIMEOUT], async_=True))
+                    elif op == 'aexpect_poll':
+                        loop.run_until_complete(sp.expect([S('ZZ'), TIMEOUT], timeout=0, async_=True))
+                        # what the poll left unread is taken by a blocking call
+                        sp.expect([S(tok), TIMEOUT])
+                    elif op == 'expect_ok':
                         sp.expect([S(tok), TIMEOUT])
                     elif op == 'expect_no':
                         sp.expect([S('ZZ'), TIMEOUT])
@@ -172,6 +193,15 @@ def run_seq(task, seq):
     except Exception as e:
         viol = ('exception', 'raised %r' % (e,))
     finally:
+        if loop is not None:
+            try:
+                tr_ = getattr(link.sp, 'async_pw_transport', None) if link is not None else None
+                if tr_:
+                    tr_[1].abort()
+                aio.close_loop(loop)
+                asyncio.set_event_loop(None)
+            except Exception:
+                pass
         if link is not None:
             link.finish()
         else:
@@ -255,14 +285,14 @@ def run_task(task):
         run_interact_logs(task, acc)
         return acc
     q = task['tier'] == 'quick'
-    ops = menu(task['transport'])
+    ops = menu(task['transport'], bool(task.get('aio')))
     maxlen = 3 if q else 4
     for n in range(1, maxlen + 1):
         for seq in itertools.product(ops, repeat=n):
             obs, viol = run_seq(task, seq)
             acc.execs += 1
             acc.transitions += n
-            reads = sum(1 for o in seq if o in ('expect_ok', 'expect_no', 'rnb'))
+            reads = sum(1 for o in seq if o in ('expect_ok', 'expect_no', 'rnb', 'aexpect_ok', 'aexpect_no', 'aexpect_poll'))
             nt = False
             if 0 < reads < n:
                 acc.flags['mixed'] += 1
@@ -279,7 +309,7 @@ def run_task(task):
                 acc.nontrivial += 1
             acc.outcomes['len%d:%s' % (n, 'viol' if viol else 'ok')] += 1
             if viol:
-                acc.violation('%s:%s:%s:%s' % (task['transport'], task['mode'], seq[-1], viol[0]),
+                acc.violation('%s%s:%s:%s:%s' % (task['transport'], '+asyncio' if task.get('aio') else '', task['mode'], seq[-1], viol[0]),
                               'sequence %r logs %r: %s' % (seq, task['subset'], viol[1]), dict(task=task, seq=list(seq)))
     acc.states += 1
     acc.sample(dict(task=task, seq=['expect_no', 'sendline', 'expect_ok', 'sendeof']))
@@ -299,5 +329,5 @@ def replay(spec):
     obs, viol = run_seq(task, tuple(spec['seq']))
     out = {'observation': {k: repr(v) for k, v in obs.items()}, 'violation': None}
     if viol:
-        out['violation'] = {'key': '%s:%s:%s:%s' % (task['transport'], task['mode'], spec['seq'][-1], viol[0]), 'msg': viol[1]}
+        out['violation'] = {'key': '%s%s:%s:%s:%s' % (task['transport'], '+asyncio' if task.get('aio') else '', task['mode'], spec['seq'][-1], viol[0]), 'msg': viol[1]}
     return out
